@@ -8,9 +8,11 @@ def parseAct (s : String) : R Act :=
   match s with
   | "ret" => pure .ret
   | "raise" => pure .raise
+  | "interrupt" => pure .interrupt
   | "exit" => pure (.exitCall .exit)
   | "exit:propagate" => pure (.exitCall .propagate)
   | "exit:other" => pure (.exitCall .other)
+  | "exit:base" => pure (.exitCall .base)
   | "msg:clean" => pure (.exitMsg false)
   | "msg:error" => pure (.exitMsg true)
   | "stop" => pure .stop
@@ -49,6 +51,7 @@ def exnStr : Exn → String
   | .exit => "Exit"
   | .propagate => "PropagateError"
   | .other => "other"
+  | .base => "base"
 
 def evStr : Ev → String
   | .ctor => "ctor" | .init => "init" | .emitStart => "emit_start" | .hbStart => "hb_start" | .mqBuilt => "mq_built"
